@@ -1,9 +1,18 @@
-(* C17 — findings are a function of the sources.  Property theorems only
-   (see C03.v for the model).  These theorems cover ALL iteration orders of the
-   name maps and all lookup sequences at the level of Model.Runner; orders
-   inside the stages are observed by the repeated runs of lib/props/C17.py. *)
-From Coq Require Import ZArith List Bool Arith Permutation.
-Require Import Model.Base Gen.Category Model.Runner Spec.RunnerSpec Proofs.RunnerProofs.
+(* C17 — findings are a function of the sources.  Property theorems only.
+   Model.Runner (see C03.v) is the report path with the stage outputs as data;
+   Model.RunnerSrc puts the source level on top of it: the pass results of a
+   definition are a FUNCTION of the answers to the lookups its passes make, so
+   that "definitions it does not reference" has a meaning in the model.
+   Proofs.DesugarOrder covers the HashMap loops of remove_syntactic_sugar over
+   Model.Desugar (the mirror of C18).  These theorems cover ALL iteration
+   orders of the name maps, all lookup sequences and all orders of the
+   desugaring loops; orders inside the other stages (SSA, dominators, taint
+   maps, declaration maps) are observed by the repeated runs of
+   lib/props/C17.py only. *)
+From Coq Require Import ZArith NArith List Bool Arith Permutation String.
+Require Import Model.Base Gen.Category Model.Runner Model.RunnerSrc
+               Spec.RunnerSpec Spec.RunnerSrcSpec Proofs.RunnerProofs Proofs.RunnerSrcProofs.
+Require Model.Ast Model.Desugar Proofs.DesugarOrder.
 Import ListNotations.
 
 (* whatever order the HashMaps of names are iterated in (and hence whichever
@@ -34,25 +43,167 @@ Theorem C17_lookups_keep_invariant : forall ds P ns s, Inv ds P s -> Inv ds P (f
 Proof. exact lookups_preserve. Qed.
 Print Assumptions C17_lookups_keep_invariant.
 
-(* adding definitions (under fresh names) leaves the findings of all others
-   untouched: the displayed multiset only gains the kept findings of the added
-   user definitions *)
-Theorem C17_unreferenced_definitions_irrelevant : forall p extra o order order',
-  wf_project (add_defs p extra) -> analysis_order p order -> analysis_order (add_defs p extra) order' ->
-  Permutation (res_shown (run_keys (add_defs p extra) o order'))
-              (res_shown (run_keys p o order)
-               ++ filter (keep_b o (p_user p)) (flat_map produced_def (filter (user_def_b (p_user p)) extra))).
-Proof. exact unreferenced_definitions_irrelevant. Qed.
+(* ---- the source level: what "references" means, and what follows from it ---------- *)
+
+(* the findings of a definition (CFG/SSA reports, then the error or the pass
+   reports) are a function of its own source and of the ANSWERS to the lookups
+   its passes make: two libraries that answer those lookups alike give the same
+   findings, whatever else they contain *)
+Theorem C17_findings_function_of_lookup_answers : forall ds1 ds2 d,
+  (forall n, In n (s_refs d) -> answer_of ds1 n = answer_of ds2 n) ->
+  produced_def (inst ds1 d) = produced_def (inst ds2 d).
+Proof. exact findings_function_of_answers. Qed.
+Print Assumptions C17_findings_function_of_lookup_answers.
+
+(* definitions that [d] does not look up may be added (read left to right) or
+   removed (right to left) without changing the findings of [d] *)
+Theorem C17_findings_unchanged_by_unreferenced : forall ds extra d,
+  (forall x, In x extra -> ~ (s_kind x = KTemplate /\ In (s_name x) (s_refs d))) ->
+  produced_def (inst (ds ++ extra) d) = produced_def (inst ds d).
+Proof. exact findings_unchanged_by_unreferenced. Qed.
+Print Assumptions C17_findings_unchanged_by_unreferenced.
+
+(* the same with the weaker-looking hypothesis of the property text: the
+   added / removed definitions are outside the TRANSITIVE lookup set of [d] *)
+Theorem C17_findings_unchanged_outside_transitive_lookups : forall ds extra d,
+  (forall x, In x extra -> ~ reaches (ds ++ extra) d x) ->
+  produced_def (inst (ds ++ extra) d) = produced_def (inst ds d).
+Proof. exact findings_unchanged_outside_transitive_lookups. Qed.
+Print Assumptions C17_findings_unchanged_outside_transitive_lookups.
+
+(* the maps enumerated in another order (definitions reordered in their files,
+   files given in another order) *)
+Theorem C17_findings_unchanged_by_reordering : forall ds ds' d,
+  NoDup (map s_key ds) -> Permutation ds ds' ->
+  produced_def (inst ds d) = produced_def (inst ds' d).
+Proof. exact findings_unchanged_by_reordering. Qed.
+Print Assumptions C17_findings_unchanged_by_reordering.
+
+(* the runner's caches answer a lookup as the source level says, in every state
+   the runner can be in: Ok exactly when the template exists and lifts *)
+Theorem C17_runner_answer_is_source_answer : forall ds P s n,
+  Inv (map (inst ds) ds) P s ->
+  (snd (cache (map (inst ds) ds) (KTemplate, n) s) = true <-> answer_of ds n <> None).
+Proof. exact runner_answer_is_source_answer. Qed.
+Print Assumptions C17_runner_answer_is_source_answer.
+
+(* in a run of main, whatever was analysed and looked up before: what the
+   analysis of [k] adds to the display is the kept part of its findings *)
+Theorem C17_definition_findings_in_any_run : forall sp o pre k post d,
+  wf_sproject sp -> analysis_order (inst_project sp) (pre ++ k :: post) ->
+  find_sdef (sp_defs sp) k = Some d ->
+  let ds := p_defs (inst_project sp) in
+  let s0 := write_reports o (sp_user sp) (sp_parse sp) init in
+  shown_by ds o (sp_user sp) (fold_left (analyze ds o (sp_user sp)) pre s0) k
+  = filter (passes_filters o (sp_user sp)) (produced_def (inst (sp_defs sp) d)).
+Proof. exact definition_findings_in_any_run. Qed.
+Print Assumptions C17_definition_findings_in_any_run.
+
+(* whole projects: adding definitions that no analysed definition looks up
+   leaves the findings of all others untouched; the displayed multiset only
+   gains the kept findings of the added user definitions *)
+Theorem C17_unreferenced_definitions_irrelevant : forall sp extra o order order',
+  wf_sproject (sadd sp extra) ->
+  analysis_order (inst_project sp) order -> analysis_order (inst_project (sadd sp extra)) order' ->
+  (forall d x, In d (filter (s_user_b (sp_user sp)) (sp_defs sp)) -> In x extra ->
+               ~ (s_kind x = KTemplate /\ In (s_name x) (s_refs d))) ->
+  Permutation (res_shown (run_src (sadd sp extra) o order'))
+              (res_shown (run_src sp o order)
+               ++ filter (keep_b o (sp_user sp))
+                    (flat_map (fun x => produced_def (inst (sp_defs sp ++ extra) x))
+                              (filter (s_user_b (sp_user sp)) extra))).
+Proof. exact unreferenced_definitions_irrelevant_src. Qed.
 Print Assumptions C17_unreferenced_definitions_irrelevant.
 
-(* definitions that live in included files only change nothing at all *)
-Theorem C17_included_definitions_irrelevant : forall p extra o order,
-  wf_project (add_defs p extra) -> analysis_order p order ->
-  (forall d, In d extra -> user_def_b (p_user p) d = false) ->
-  analysis_order (add_defs p extra) order /\
-  Permutation (res_shown (run_keys (add_defs p extra) o order)) (res_shown (run_keys p o order)).
-Proof. exact included_definitions_irrelevant. Qed.
+(* definitions that live in included files only and are not looked up change nothing at all *)
+Theorem C17_included_definitions_irrelevant : forall sp extra o order,
+  wf_sproject (sadd sp extra) -> analysis_order (inst_project sp) order ->
+  (forall x, In x extra -> s_user_b (sp_user sp) x = false) ->
+  (forall d x, In d (filter (s_user_b (sp_user sp)) (sp_defs sp)) -> In x extra ->
+               ~ (s_kind x = KTemplate /\ In (s_name x) (s_refs d))) ->
+  analysis_order (inst_project (sadd sp extra)) order /\
+  Permutation (res_shown (run_src (sadd sp extra) o order)) (res_shown (run_src sp o order)).
+Proof. exact included_unreferenced_definitions_irrelevant. Qed.
 Print Assumptions C17_included_definitions_irrelevant.
+
+(* WITHOUT the "is not looked up" hypothesis both statements are false (as they
+   are for the real tool: unused_output_signal): an included template that an
+   analysed template instantiates changes the findings of the latter *)
+Theorem C17_referenced_definition_matters :
+  exists sp extra o order,
+    wf_sproject (sadd sp extra) /\
+    analysis_order (inst_project sp) order /\ analysis_order (inst_project (sadd sp extra)) order /\
+    (forall x, In x extra -> s_user_b (sp_user sp) x = false) /\
+    (exists d x, In d (filter (s_user_b (sp_user sp)) (sp_defs sp)) /\ In x extra /\
+                 s_kind x = KTemplate /\ In (s_name x) (s_refs d)) /\
+    ~ Permutation (res_shown (run_src (sadd sp extra) o order))
+                  (res_shown (run_src sp o order)
+                   ++ filter (keep_b o (sp_user sp))
+                        (flat_map (fun x => produced_def (inst (sp_defs sp ++ extra) x))
+                                  (filter (s_user_b (sp_user sp)) extra))).
+Proof. exact referenced_definition_matters. Qed.
+Print Assumptions C17_referenced_definition_matters.
+
+(* the same definitions enumerated in another order by the maps *)
+Theorem C17_definitions_reordered : forall sp ds' o order order',
+  wf_sproject sp -> Permutation (sp_defs sp) ds' ->
+  analysis_order (inst_project sp) order -> analysis_order (inst_project (swith sp ds')) order' ->
+  Permutation (res_shown (run_src sp o order)) (res_shown (run_src (swith sp ds') o order')) /\
+  res_exit (run_src sp o order) = res_exit (run_src (swith sp ds') o order').
+Proof. exact definitions_reordered. Qed.
+Print Assumptions C17_definitions_reordered.
+
+(* ---- the HashMap loops of remove_syntactic_sugar (Model.Desugar) ------------------- *)
+
+(* the table of templates handed to remove_anonymous_from_statement is read by
+   name only: tables that answer every lookup alike desugar every body alike *)
+Theorem C17_desugar_lookup_by_name_only : forall e1 e2 lib,
+  (forall id, Desugar.lookup_template id e1 = Desugar.lookup_template id e2) ->
+  forall body, Desugar.desugar_template e1 lib body = Desugar.desugar_template e2 lib body.
+Proof. exact DesugarOrder.desugar_template_env. Qed.
+Print Assumptions C17_desugar_lookup_by_name_only.
+
+(* `for (name, template) in templates`: every iteration order gives the same
+   surviving templates and the same reports (as multisets), or no result in both *)
+Theorem C17_desugar_templates_order_independent : forall env lib ts ts',
+  Permutation ts ts' ->
+  match Desugar.desugar_templates env lib ts [] [], Desugar.desugar_templates env lib ts' [] [] with
+  | Desugar.DOk (x, r), Desugar.DOk (x', r') => Permutation x x' /\ Permutation r r'
+  | Desugar.DOk _, _ | _, Desugar.DOk _ => False
+  | _, _ => True
+  end.
+Proof. exact DesugarOrder.desugar_templates_order_independent. Qed.
+Print Assumptions C17_desugar_templates_order_independent.
+
+(* the whole function, both maps enumerated in any order (the lookup table is
+   built from the same map, enumerated in the same other order) *)
+Theorem C17_remove_syntactic_sugar_order_independent : forall lib ts ts' fs fs',
+  NoDup (map fst ts) -> Permutation ts ts' -> Permutation fs fs' ->
+  match Desugar.remove_syntactic_sugar lib ts fs, Desugar.remove_syntactic_sugar lib ts' fs' with
+  | Desugar.DOk x, Desugar.DOk y =>
+      Permutation (Desugar.d_templates x) (Desugar.d_templates y) /\
+      Permutation (Desugar.d_functions x) (Desugar.d_functions y) /\
+      Permutation (Desugar.d_reports x) (Desugar.d_reports y)
+  | Desugar.DOk _, _ | _, Desugar.DOk _ => False
+  | _, _ => True
+  end.
+Proof. exact DesugarOrder.remove_syntactic_sugar_order_independent. Qed.
+Print Assumptions C17_remove_syntactic_sugar_order_independent.
+
+(* the statement distinguishes: for the loop that removes dropped templates
+   from its lookup table while iterating (seeded/C17-desugar-known-templates-
+   hash-order; not the code of /repo) it is false *)
+Theorem C17_desugar_tracking_variant_order_dependent :
+  exists lib ts ts',
+    NoDup (map fst ts) /\ Permutation ts ts' /\
+    ~ DesugarOrder.same_up_to_order
+        (DesugarOrder.desugar_templates_tracking (Desugar.env_of ts) lib ts [] [])
+        (DesugarOrder.desugar_templates_tracking (Desugar.env_of ts) lib ts' [] []) /\
+    DesugarOrder.same_up_to_order
+        (Desugar.desugar_templates (Desugar.env_of ts) lib ts [] [])
+        (Desugar.desugar_templates (Desugar.env_of ts) lib ts' [] []).
+Proof. exact DesugarOrder.tracking_variant_order_dependent. Qed.
+Print Assumptions C17_desugar_tracking_variant_order_dependent.
 
 (* the order in which the files were parsed (order of the parser's reports,
    order in which TemplateLibrary::new inserts the definitions): irrelevant,
@@ -112,4 +263,29 @@ Proof.
   split. { vm_compute. apply Permutation_refl. }
   split. { vm_compute. apply perm_swap. }
   vm_compute. split; reflexivity.
+Qed.
+
+(* non-vacuity of the source-level hypotheses: U looks T up (and reports iff T
+   answers with an output signal), X is added next to them and nobody looks it up *)
+Definition ex_sT : sdef := mkSDef KTemplate 1 0 [ex_shadow] None [(7%Z, 0%nat)] [] (fun _ => []).
+Definition ex_sU : sdef :=
+  mkSDef KTemplate 2 0 [] None [] [1%Z; 1%Z; 9%Z]
+         (fun a => match a with Some (_ :: _) :: _ => [ex_unused] | _ => [] end).
+Definition ex_sX : sdef := mkSDef KTemplate 3 0 [] None [(8%Z, 0%nat)] [2%Z] (fun _ => [ex_shadow]).
+Definition ex_sp : sproject := mkSProject [] [ex_sT; ex_sU] [0%Z].
+
+Example C17_src_witnesses :
+  wf_sproject (sadd ex_sp [ex_sX]) /\
+  (forall d x, In d (filter (s_user_b (sp_user ex_sp)) (sp_defs ex_sp)) -> In x [ex_sX] ->
+               ~ (s_kind x = KTemplate /\ In (s_name x) (s_refs d))) /\
+  inst_project ex_sp = ex_p /\
+  answer_of (sp_defs ex_sp) 1%Z = Some [(7%Z, 0%nat)] /\
+  res_shown (run_src (sadd ex_sp [ex_sX]) (mkOpts Info [] false true)
+                     [(KTemplate, 3%Z); (KTemplate, 2%Z); (KTemplate, 1%Z)]) = [ex_shadow; ex_unused; ex_shadow] /\
+  (* without T the lookup of U fails and U has no finding *)
+  res_shown (run_src (mkSProject [] [ex_sU] [0%Z]) (mkOpts Info [] false true) [(KTemplate, 2%Z)]) = [].
+Proof.
+  split. { unfold wf_sproject. simpl. repeat constructor; simpl; intuition discriminate. }
+  split. { simpl. intros d x [<-|[<-|[]]] [<-|[]] [_ H]; simpl in H; intuition discriminate. }
+  vm_compute. repeat split; reflexivity.
 Qed.
